@@ -130,6 +130,8 @@ theorem basic_preserved : Preserved Basic where
     · exact ⟨h.flowIds, h.scopeIds, h.nameScope⟩
     · obtain ⟨h1, h2⟩ := basic_flows_insert h f
         { id := st.infos.length, name := b.name, loc := b.loc, scope := st.flowScope f } rfl
+      split
+      · exact ⟨h1, h.scopeIds, h2⟩
       exact ⟨h1, basic_scopes_modify h (st.flowScope f)
         (fun s => { s with locals := addSet s.locals b.name }) (fun _ => rfl), h2⟩
   compName := by
@@ -173,6 +175,9 @@ theorem basic_preserved : Preserved Basic where
   globalDecl := fun st ns h =>
     ⟨h.flowIds, basic_scopes_modify h st.curScope
       (fun s => { s with globalsDecl := ns.foldl addSet s.globalsDecl }) (fun _ => rfl), h.nameScope⟩
+  nonlocalDecl := fun st ns h =>
+    ⟨h.flowIds, basic_scopes_modify h st.curScope
+      (fun s => { s with nonlocalsDecl := ns.foldl addSet s.nonlocalsDecl }) (fun _ => rfl), h.nameScope⟩
   addReturn := fun st h =>
     ⟨h.flowIds, basic_scopes_modify h st.curScope
       (fun s => match s.kind with | .func => { s with returns := s.returns + 1 } | _ => s)
